@@ -552,6 +552,15 @@ func (f *File) Close() error {
 	return err
 }
 
+// Flush issues the FLUSH request a close(2) of one descriptor sends (the handle stays usable: other descriptors
+// of the same open file may still exist, and RELEASE only follows the last one).
+func (f *File) Flush() error {
+	if fl, ok := f.H.(fs.HandleFlusher); ok {
+		return fl.Flush(f.M.ctx, &bfuse.FlushRequest{LockOwner: bfuse.LockOwner(f.Owner)})
+	}
+	return nil
+}
+
 // ReadAll reads the whole file through the cache.
 func (f *File) ReadAll() ([]byte, error) {
 	size, err := f.Size()
